@@ -10,12 +10,13 @@ TRUSTED = [
     "assumed lemma instances: pigeonhole (injection [0,a)->[0,b) gives a<=b; surjection gives b<=a), used in Index.update",
 ]
 ASSUMPTIONS = [
+    "base case (TinyFlux.__init__): the storage constructors are ASSUMED to return a storage with no temporary content whose _initially_empty flag is true exactly when it holds no item (CSVStorage.__init__/_check_for_existing_data and MemoryStorage.__init__ are read, not under contract); auto_index is taken as a bool (the TypeError branch for other types is not explored)",
     "A-alias: containers inside Index are not shared; a loop that writes through the container it iterates only replaces the value of the key being visited",
     "dict iteration order is arbitrary but fixed during one loop",
     "datetime.timestamp() is a function of the datetime value (uninterpreted here; refined under C08)",
 ]
 FUNCTIONS = FUNCTIONS + MEM_REFINEMENT  # MemoryStorage refines the abstract Storage contract
 # the reads that are not wrapped by read_op (clause "any read leaves the index valid"; known finding KF-20) and the read operations that are
-FUNCTIONS = FUNCTIONS + [TF + "__iter__", TF + "all", TF + "count"] + ["tinyflux.measurement.Measurement." + f for f in ("__len__", "__iter__", "all")]
+FUNCTIONS = FUNCTIONS + [TF + "__init__", TF + "__iter__", TF + "all", TF + "count"] + ["tinyflux.measurement.Measurement." + f for f in ("__len__", "__iter__", "all")]
 # the property is KNOWN not to hold for len()/iteration (KF-20): their four obligations are not discharged, so the claim is not proof-level
 LEVEL = "other"
